@@ -2,4 +2,4 @@ SPECIFICATION TraceSpec
 CONSTRAINT Progress
 POSTCONDITION Accepted
 CHECK_DEADLOCK FALSE
-INVARIANTS GrowthServes LoanAligned LoanIntact LoanDisjoint RecvResolves HeldIntact HeldDisjoint HeldAligned
+INVARIANTS GrowthServes LoanAligned LoanIntact LoanDisjoint RecvResolves HeldIntact HeldDisjoint HeldAligned NoPanic
